@@ -58,6 +58,15 @@ func init() {
 			// comments: everything short of the terminator is inside, whatever near-misses of the terminator it holds
 			cmt := []string{"{{--", "--}}", "-", "}", "--", "{", "x", " ", "é", "\n"}
 			secs = append(secs, seqSections("comment-", cmt, lk+3, run)...)
+			// long tokens: names, numbers, strings, comments, white space inside code, directive arguments of 255 .. 1 Mi bytes
+			tokLens := []int{255, 256, 257, 4095, 4096, 4097, 65535, 65536, 65537, 1 << 20}
+			secs = append(secs, core.Section{Name: "long-tokens", Exhaustive: true, N: len(tokLens),
+				Run: func(c *core.Ctx, i int) {
+					n := tokLens[i]
+					for _, s := range longTokenInputs(n) {
+						run(c, s)
+					}
+				}})
 			// inputs that start with bytes an editor or a tool may put in front: a byte order mark, NUL and
 			// control bytes, zero-width and other non-ASCII characters
 			heads := []string{"\xef\xbb\xbf", "\xff\xfe", "\x00", "\x01", "\xe2\x80\x8b", "\xc2\xa0", "\u2028", "\x1b[0m", "\r", "\n", "\t"}
